@@ -11,6 +11,14 @@ CHECKS = {
              text="Bounded symbolic checking of the planar kernels: all coordinates symbolic for distance/project/point-to-segment/box and for the structure of segment-to-segment; minimality of segment-to-segment on the stated segment families.",
              note="Reals instead of doubles; sqrt/isclose/min/max shims; segment-to-segment minimality in general position outside the claim."),
 }
+CHECKS.update({
+ 'C02': dict(tech="symbolic execution of real update()/match()/widen/extend over abstract geometry; in-solver comparison with an independent re-derivation of the documented score model", ref="5/C02",
+             text="Bounded symbolic model checking: the fields reported along the best path (log-probability, length, observation distance, accumulated distances) equal an independently re-derived model value on every path of the real code within the bounds; update() copies every slot for both matching classes.",
+             note="Reals for symbolic values; AbsMap contract; tolerance 1e-8; graphs <=4 nodes, T<=3, histories of <=3 operations; incomplete enumerations flagged per instance."),
+ 'C07': dict(tech="symbolic execution of real LatticeColumn.prune against an independent specification + relational symbolic execution of match() with/without width and widening sequences (z3 LRA/NRA)", ref="5/C07",
+             text="Bounded symbolic model checking of prune (all weak orderings incl. exact ties of n<=4(5) symbolic scores, stop/delayed/threshold variants) and of pruned-vs-unpruned / widening monotonicity over abstract geometry.",
+             note="Reals; column size and graph/trace bounds as listed in evidence; AbsMap contract."),
+})
 NA = {
  'C15': "error bound between two transcendental computations (great-circle vs locally projected planar): needs a delta-complete procedure for sin/cos/atan2; z3 has none and cvc5 QF_NRAT timed out on the 3-variable core (DESIGN.md section 8)",
 }
